@@ -10,6 +10,7 @@ package server
 // to is open: an element that cannot be routed is counted and skipped and leaves the
 // current stream as it is.
 //@ func (*GripServer).BulkAdd
+//@   vars server stream graphName insertCount errorCount elementStream wg element err err gdb err graph err err err
 //@   property C18 C06
 //@   option load=gripql,gdbi
 //@   nopanic
@@ -40,6 +41,7 @@ package server
 // optional sub-message (vertex, edge, ...) may be absent; the server's own fields are
 // set. The handlers must not dereference nil, whatever the request holds.
 //@ func (*GripServer).GetVertex
+//@   vars server ctx elem gdb err graph o
 //@   property C06
 //@   option load=gripql,gdbi
 //@   nopanic
@@ -48,6 +50,7 @@ package server
 //@   requires schemas: server.schemas != nil && (forall k:Str :: has(server.schemas, k) ==> server.schemas[k] != nil)
 
 //@ func (*GripServer).GetEdge
+//@   vars server ctx elem gdb err graph o
 //@   property C06
 //@   option load=gripql,gdbi
 //@   nopanic
@@ -56,6 +59,7 @@ package server
 //@   requires schemas: server.schemas != nil && (forall k:Str :: has(server.schemas, k) ==> server.schemas[k] != nil)
 
 //@ func (*GripServer).GetTimestamp
+//@   vars server ctx elem gdb err graph
 //@   property C06
 //@   option load=gripql,gdbi
 //@   nopanic
@@ -64,6 +68,7 @@ package server
 //@   requires schemas: server.schemas != nil && (forall k:Str :: has(server.schemas, k) ==> server.schemas[k] != nil)
 
 //@ func (*GripServer).DeleteGraph
+//@   vars server ctx elem gdb err schemaName err
 //@   property C06
 //@   option load=gripql,gdbi
 //@   nopanic
@@ -72,6 +77,7 @@ package server
 //@   requires schemas: server.schemas != nil && (forall k:Str :: has(server.schemas, k) ==> server.schemas[k] != nil)
 
 //@ func (*GripServer).AddGraph
+//@   vars server ctx elem err gdb
 //@   property C06
 //@   option load=gripql,gdbi
 //@   nopanic
@@ -80,6 +86,7 @@ package server
 //@   requires schemas: server.schemas != nil && (forall k:Str :: has(server.schemas, k) ==> server.schemas[k] != nil)
 
 //@ func (*GripServer).AddVertex
+//@   vars server ctx elem
 //@   property C06
 //@   option load=gripql,gdbi
 //@   nopanic
@@ -88,6 +95,7 @@ package server
 //@   requires schemas: server.schemas != nil && (forall k:Str :: has(server.schemas, k) ==> server.schemas[k] != nil)
 
 //@ func (*GripServer).addVertex
+//@   vars server ctx elem gdb err graph vertex
 //@   property C06
 //@   option load=gripql,gdbi
 //@   nopanic
@@ -96,6 +104,7 @@ package server
 //@   requires schemas: server.schemas != nil && (forall k:Str :: has(server.schemas, k) ==> server.schemas[k] != nil)
 
 //@ func (*GripServer).AddEdge
+//@   vars server ctx elem
 //@   property C06
 //@   option load=gripql,gdbi
 //@   nopanic
@@ -104,6 +113,7 @@ package server
 //@   requires schemas: server.schemas != nil && (forall k:Str :: has(server.schemas, k) ==> server.schemas[k] != nil)
 
 //@ func (*GripServer).addEdge
+//@   vars server ctx elem gdb err graph edge
 //@   property C06
 //@   option load=gripql,gdbi
 //@   nopanic
@@ -112,6 +122,7 @@ package server
 //@   requires schemas: server.schemas != nil && (forall k:Str :: has(server.schemas, k) ==> server.schemas[k] != nil)
 
 //@ func (*GripServer).DeleteVertex
+//@   vars server ctx elem gdb err graph
 //@   property C06
 //@   option load=gripql,gdbi
 //@   nopanic
@@ -120,6 +131,7 @@ package server
 //@   requires schemas: server.schemas != nil && (forall k:Str :: has(server.schemas, k) ==> server.schemas[k] != nil)
 
 //@ func (*GripServer).DeleteEdge
+//@   vars server ctx elem gdb err graph
 //@   property C06
 //@   option load=gripql,gdbi
 //@   nopanic
@@ -128,6 +140,7 @@ package server
 //@   requires schemas: server.schemas != nil && (forall k:Str :: has(server.schemas, k) ==> server.schemas[k] != nil)
 
 //@ func (*GripServer).AddIndex
+//@   vars server ctx idx gdb err graph
 //@   property C06
 //@   option load=gripql,gdbi
 //@   nopanic
@@ -136,6 +149,7 @@ package server
 //@   requires schemas: server.schemas != nil && (forall k:Str :: has(server.schemas, k) ==> server.schemas[k] != nil)
 
 //@ func (*GripServer).DeleteIndex
+//@   vars server ctx idx gdb err graph
 //@   property C06
 //@   option load=gripql,gdbi
 //@   nopanic
@@ -144,6 +158,7 @@ package server
 //@   requires schemas: server.schemas != nil && (forall k:Str :: has(server.schemas, k) ==> server.schemas[k] != nil)
 
 //@ func (*GripServer).ListIndices
+//@   vars server ctx idx gdb err graph indices i
 //@   property C06
 //@   option load=gripql,gdbi
 //@   nopanic
@@ -152,6 +167,7 @@ package server
 //@   requires schemas: server.schemas != nil && (forall k:Str :: has(server.schemas, k) ==> server.schemas[k] != nil)
 
 //@ func (*GripServer).ListLabels
+//@   vars server ctx idx gdb err graph vLabels eLabels
 //@   property C06
 //@   option load=gripql,gdbi
 //@   nopanic
@@ -160,6 +176,7 @@ package server
 //@   requires schemas: server.schemas != nil && (forall k:Str :: has(server.schemas, k) ==> server.schemas[k] != nil)
 
 //@ func (*GripServer).GetSchema
+//@   vars server ctx elem schema ok
 //@   property C06
 //@   option load=gripql,gdbi
 //@   nopanic
@@ -168,6 +185,7 @@ package server
 //@   requires schemas: server.schemas != nil && (forall k:Str :: has(server.schemas, k) ==> server.schemas[k] != nil)
 
 //@ func (*GripServer).AddSchema
+//@   vars server ctx req err
 //@   property C06
 //@   option load=gripql,gdbi
 //@   nopanic
@@ -176,6 +194,7 @@ package server
 //@   requires schemas: server.schemas != nil && (forall k:Str :: has(server.schemas, k) ==> server.schemas[k] != nil)
 
 //@ func (*GripServer).GetMapping
+//@   vars server ctx elem mapping err
 //@   property C06
 //@   option load=gripql,gdbi
 //@   nopanic
@@ -184,6 +203,7 @@ package server
 //@   requires schemas: server.schemas != nil && (forall k:Str :: has(server.schemas, k) ==> server.schemas[k] != nil)
 
 //@ func (*GripServer).AddMapping
+//@   vars server ctx req err
 //@   property C06
 //@   option load=gripql,gdbi
 //@   nopanic
@@ -192,6 +212,7 @@ package server
 //@   requires schemas: server.schemas != nil && (forall k:Str :: has(server.schemas, k) ==> server.schemas[k] != nil)
 
 //@ func (*GripServer).Traversal
+//@   vars server query queryServer gdb err graph compiler compiledPipeline res row
 //@   property C06
 //@   option load=gripql,gdbi
 //@   nopanic
@@ -201,6 +222,7 @@ package server
 //@   requires schemas: server.schemas != nil && (forall k:Str :: has(server.schemas, k) ==> server.schemas[k] != nil)
 
 //@ func (*GripServer).ListGraphs
+//@   vars server ctx empty graphs g
 //@   property C06
 //@   option load=gripql,gdbi
 //@   nopanic
@@ -248,10 +270,12 @@ package server
 // addFullGraph stores a schema / mapping graph through the server's own client connection;
 // it does not touch the server's fields (ASSUMED).
 //@ func (*GripServer).addFullGraph
+//@   vars server ctx graphName schema err err v err e err
 //@   trusted
 //@   pure
 
 //@ func (*GripServer).graphExists
+//@   vars server graphName gdb err found graph
 //@   property C06
 //@   option load=gripql,gdbi
 //@   nopanic
@@ -266,6 +290,7 @@ package server
 //@   modifies KV. TS.
 
 //@ func (*GripServer).SampleSchema
+//@   vars server ctx elem gdb err schema err
 //@   property C06
 //@   option load=gripql,gdbi,jobstorage
 //@   nopanic
@@ -273,6 +298,7 @@ package server
 //@   requires dbs: forall k:Str :: has(server.dbs, k) ==> server.dbs[k] != nil
 
 //@ func (*GripServer).Submit
+//@   vars server ctx query gdb err graph compiler pipe dataType markTypes man bufsize res jobID
 //@   property C06
 //@   option load=gripql,gdbi,jobstorage
 //@   nopanic
@@ -280,6 +306,7 @@ package server
 //@   requires dbs: forall k:Str :: has(server.dbs, k) ==> server.dbs[k] != nil
 
 //@ func (*GripServer).GetJob
+//@   vars server ctx job
 //@   property C06
 //@   option load=gripql,gdbi,jobstorage
 //@   nopanic
@@ -287,6 +314,7 @@ package server
 //@   requires dbs: forall k:Str :: has(server.dbs, k) ==> server.dbs[k] != nil
 
 //@ func (*GripServer).DeleteJob
+//@   vars server ctx job err
 //@   property C06
 //@   option load=gripql,gdbi,jobstorage
 //@   nopanic
@@ -294,6 +322,7 @@ package server
 //@   requires dbs: forall k:Str :: has(server.dbs, k) ==> server.dbs[k] != nil
 
 //@ func (*GripServer).ListJobs
+//@   vars server graph srv stream err i
 //@   property C06
 //@   option load=gripql,gdbi,jobstorage
 //@   nopanic
@@ -301,6 +330,7 @@ package server
 //@   requires dbs: forall k:Str :: has(server.dbs, k) ==> server.dbs[k] != nil
 
 //@ func (*GripServer).SearchJobs
+//@   vars server query srv stream err i
 //@   property C06
 //@   option load=gripql,gdbi,jobstorage
 //@   nopanic
@@ -308,6 +338,7 @@ package server
 //@   requires dbs: forall k:Str :: has(server.dbs, k) ==> server.dbs[k] != nil
 
 //@ func (*GripServer).ViewJob
+//@   vars server job srv stream err gdb graph o res
 //@   property C06
 //@   option load=gripql,gdbi,jobstorage
 //@   nopanic
@@ -315,6 +346,7 @@ package server
 //@   requires dbs: forall k:Str :: has(server.dbs, k) ==> server.dbs[k] != nil
 
 //@ func (*GripServer).ResumeJob
+//@   vars server query srv gdb err graph ctx cancel stream compiler pipe res o
 //@   property C06
 //@   option load=gripql,gdbi,jobstorage
 //@   nopanic
@@ -322,6 +354,7 @@ package server
 //@   requires dbs: forall k:Str :: has(server.dbs, k) ==> server.dbs[k] != nil
 
 //@ func (*GripServer).ListTables
+//@   vars server empty srv client k col info err
 //@   property C06
 //@   option load=gripql,gdbi,jobstorage
 //@   nopanic
